@@ -400,6 +400,27 @@ func opExpAggregates(g *G) (interface{}, []uint64, int, interface{}) {
 			jo.AvgComplex = JFloatsRes{V: bitsOf(ac), Panic: r.Panic}
 			n, ge, ev, dv := t.WinnerStatistics()
 			jo.Winner = []int{n, ge, ev, dv}
+			// asked AGAIN after the recorded generations were reordered in place (Generations is a sort.Interface; with at
+			// most one solved generation the winner does not depend on the order): the answer must not change
+			nSolved := 0
+			for k := range t.Generations {
+				if t.Generations[k].Solved {
+					nSolved++
+				}
+			}
+			if nSolved <= 1 && len(t.Generations) >= 2 {
+				rev := func() {
+					for a, b := 0, len(t.Generations)-1; a < b; a, b = a+1, b-1 {
+						t.Generations[a], t.Generations[b] = t.Generations[b], t.Generations[a]
+					}
+				}
+				rev()
+				n2, ge2, ev2, dv2 := t.WinnerStatistics()
+				rev()
+				if n2 != n || ge2 != ge || ev2 != ev || dv2 != dv {
+					jo.Winner = []int{n2, ge2, ev2, dv2}
+				}
+			}
 		}()
 		out.Trials = append(out.Trials, jo)
 	}
